@@ -102,6 +102,19 @@ CLAIMED = {
    note="Trusted: Coq kernel, translator, extraction+driver, harness, genzip.py, Info-ZIP. The writer-side theorem 'stored bytes = PKWARE ciphertext of header||data' awaits the writer model; it is judged per case by the independent decryptor.",
    technique="Coq proof over source-translated cipher (sweeps + bit algebra + induction) + differential correspondence with independent producers",
    design="8 (C15)"),
+ "C16": dict(
+   text="Machine-checked Coq theorems for ARBITRARY block cipher, MAC and KDF functions: the little-endian CTR keystream "
+        "is an involution and chunk-independent; the authenticating reader streams a denotation (total, chunk-independent); "
+        "SOUNDNESS for every archive byte string: a read of a non-empty entry that completes has verified the 80-bit MAC "
+        "over the ciphertext it received and returned exactly its CTR decryption; CORRECTNESS: the container of an "
+        "encryptor following the WinZip specification denotes the original data; CRC enforced for AE-1, never consulted "
+        "for AE-2; no panic on any AES entry.  Correspondence: the model runs Gallina AES / HMAC-SHA1 (FIPS-197, RFC 3174/"
+        "2202/6070 vectors as Examples; Gallina PBKDF2 compared with hashlib) against the crate on containers from an "
+        "independent Python encryptor: all versions x strengths x inner methods x lengths, every single-bit flip of "
+        "salt/verifier/ciphertext/MAC, truncations, CRC policy, wrong/no password, short-reading sources, repo fixture.",
+   note="Trusted: Coq kernel, extraction+driver, harness, genzip.py AES, hashlib. 'Any change is detected' rests on HMAC-SHA1-80 unforgeability (named, not proved). The derived key is supplied to the model by hashlib in bulk cases.",
+   technique="Coq proof (stream denotation of the authenticating reader, soundness/correctness for abstract primitives) + bit-flip-exhaustive correspondence with an independent encryptor",
+   design="8 (C16)"),
  "C18": dict(
    text="Machine-checked Coq theorems over definitions regenerated from src/types.rs on every run: "
         "unpack.pack = id on all 2^32 DOS words (separability + two complete 2^16 sweeps by vm_compute), "
